@@ -49,7 +49,7 @@ Proof.
 Qed.
 
 Lemma collecting_methods_check :
-  collecting_methods fns = ["collect_debt"; "mark_debt"; "finish_marking"; "cycle_debt"; "finish_cycle"; "start_sweeping"].
+  same_set (collecting_methods fns) ["collect_debt"; "mark_debt"; "finish_marking"; "cycle_debt"; "finish_cycle"; "start_sweeping"] = true.
 Proof. vm_compute. reflexivity. Qed.
 
 Lemma callbacks_borrow_check : forallb callback_borrows_arena arena_fns = true.
